@@ -284,8 +284,11 @@ def run(project, chk):
             return len(specs) == 3 and all(sp.endswith("x") for sp in specs) and any(isinstance(v, ast.Constant) and str(v.value).startswith("#") for v in e.values)
         return False
 
-    def of_own_pair(e) -> bool:      # self.text.to_hex() / self.bg.to_hex(): the pair's own colours, not the tuned one
-        return isinstance(e, ast.Call) and isinstance(e.func, ast.Attribute) and norm_text(e.func.value) in ("self.text", "self.bg")
+    from sa.resolve import local_aliases as _la, unalias as _ua
+    k_aliases = _la(mk.node)
+
+    def of_own_pair(e) -> bool:      # self.text.to_hex() / self.bg.to_hex(): the pair's own colours, not the tuned one (also through text = self.text)
+        return isinstance(e, ast.Call) and isinstance(e.func, ast.Attribute) and norm_text(_ua(e.func.value, k_aliases)) in ("self.text", "self.bg")
     n_prev = 0
     for knode in kcfg.nodes:
         for e in node_exprs(knode):
